@@ -19,6 +19,7 @@ var runners = map[string]eng.Runner{
 	"C06": wire.C06,
 	"C07": wire.C07,
 	"C08": wire.C08,
+	"C11": wire.C11,
 	"C12": wire.C12,
 	"C13": wire.C13,
 	"C16": wire.C16,
